@@ -269,7 +269,7 @@ CORPUS = [
     [_c(".asciz "), _l('"x;y"')], [_c(".rad50 "), _l("/abc/")], [_c(".blkb 10")], [_c(".even")], [_c(".repeat 3 { nop }")], [_c(".link 2000")],
     [_c(".include "), _l('"f.mac"')], [_c("make_raw "), _l('"out"')], [_c("mov #<1+2>*3, r0")], [_c("mov #^xff & 0b101, r0")], [_c("mov #"), _l('"ab'), _c(", r0")],
     [_c("mov #"), _l("'a"), _c(", r0")], [_c("emt 377")], [_c("mov %1, @%2")], [_c("mov x(r1), -y(r2)")], [_c(".extern all")], [_c("a = b _ 2 ! 1")], [_c("a = ^c1")],
-    [_c("insert_file "), _l('"data.bin"')], [_c("tst (r1)")], [_c("tst @r1")], [_c("mov #-1, r0")],
+    [_c("insert_file "), _l('"data.bin"')], [_c("tst (r1)")], [_c("tst @r1")], [_c("mov #-1, r0")], [_c("mov (r0)+, (r1)+")], [_c("tst (r0)+")], [_c("x = 5 + 3")], [_c("lab3:")],
 ]
 
 
@@ -293,6 +293,10 @@ def _respell(pieces, how):
         text = "; leading comment 'x \"y\n\n" + text + " ; trailing: mov r0, r1 \"quoted\" 'c\n\n ; another\n"
     if how == "blank":
         text = "\n\n \n" + text + "\n\n\t\n"
+    if how == "eof-blanks":
+        return text.rstrip("\n") + " \t "         # the last line of a file: no newline, trailing blanks
+    if how == "eof":
+        return text.rstrip("\n")
     return text + ("" if text.endswith("\n") else "\n")
 
 
@@ -346,7 +350,11 @@ def rule_respell(ck):
         if raised0 or errs0 or pos0 < len(plain.rstrip()):
             raise Unknown(f"corpus statement {plain!r} does not parse cleanly (errors {errs0}, raised {raised0}, stopped at {pos0})")
         want = _tree_norm(r0)
-        for how in ("upper", "spaces", "tight", "comment", "blank"):
+        idx = CORPUS.index(pieces)
+        hows = ("upper", "spaces", "tight", "comment", "blank", "eof", "eof-blanks")
+        if getattr(ck, "tier", "quick") == "quick" and idx % 2:
+            hows = ("upper", "comment", "eof-blanks")        # every second statement gets the short list in the quick tier
+        for how in hows:
             text = _respell(pieces, how)
             if how == "tight" and text == plain:
                 continue
@@ -360,7 +368,7 @@ def rule_respell(ck):
                                     + " - the emitted bytes depend on spelling, not on meaning", construct=f"respelling {how}: {plain.strip()}")
 
 def run(ck):
-    ck.run_rule("C10.parse", "letter case, horizontal whitespace, blank lines and comments do not change the parse tree (real parser on a statement corpus)", 150, rule_respell)
+    ck.run_rule("C10.parse", "letter case, horizontal whitespace, blank lines, comments and a missing final newline do not change the parse tree (real parser on a statement corpus)", 150, rule_respell)
     ck.run_rule("G6", "comparisons of source text with cased constants are case-folded", 25, rule_G6)
     ck.run_rule("G6.tab", "symbol/instruction/operator tables are case-insensitive; every method lowers its key", 10, rule_tables)
     ck.run_rule("G6.par", "Parser.regex / Parser.literal ignore case by default and no site overrides it", 30, rule_parsers)
